@@ -920,6 +920,32 @@ def setter_writes(ctx):
                 f'prescribed one', construct='set_radius infinite radius '
                                              'on a subclass'))
     if infarm and exact:
+        # the plane takes the place of the conic: same coordinate system,
+        # the conic constant carried along, and it is the surface's geometry
+        arm = infarm[0].body
+        nm = None
+        for st in arm:
+            if isinstance(st, ast.Assign) and isinstance(
+                    st.targets[0], ast.Name) and isinstance(
+                    st.value, ast.Call) and unparse(st.value.func) == 'Plane':
+                nm = st.targets[0].id
+                cs_ok = [unparse(a) for a in st.value.args] == \
+                    ['surface.geometry.cs'] or any(
+                        unparse(k_.value) == 'surface.geometry.cs'
+                        for k_ in st.value.keywords)
+        txt = [unparse(st).replace(' ', '') for st in arm]
+        want = [f'{nm}.k=surface.geometry.k', f'surface.geometry={nm}']
+        if nm is None or not cs_ok or not all(w in txt for w in want) or \
+                txt.index(want[0]) > txt.index(want[1]):
+            res.fail(ctx.finding(
+                'SETTER-WRITES', f, infarm[0],
+                'set_radius(inf): the Plane that replaces the conic does not '
+                'take over the coordinate system and the conic constant, or '
+                'is not made the geometry of the surface',
+                construct='set_radius infinite radius replacement'))
+        else:
+            res.ok('set_radius(inf): Plane(same cs), k carried, installed')
+    if infarm and exact:
         res.ok('set_radius(inf) on a conic surface makes it a plane')
     elif infarm:
         pass
@@ -1032,10 +1058,51 @@ def pickup(ctx):
         res.fail(ctx.finding('PICKUP', m, m.node,
                              'pickups are not all applied in order',
                              construct='PickupManager.apply'))
+    # the solve manager likewise; both loops apply every entry on every pass
+    # (a call under a condition is not "applied"), and add() applies the new
+    # entry at once, so that the lens satisfies it before the next update()
+    def uncond_calls(stmts):
+        for st in stmts:
+            if isinstance(st, (ast.For, ast.With)):
+                yield from uncond_calls(st.body)
+            elif isinstance(st, (ast.Expr, ast.Assign)):
+                yield from (c for c in ast.walk(st) if isinstance(c, ast.Call))
+    for mq, coll, var in (('PickupManager.apply', 'self.pickups', None),
+                          ('SolveManager.apply', 'self.solves', None)):
+        mf = P.func(mq)
+        res.saw(mf)
+        loops = [n for n in mf.node.body if isinstance(n, ast.For) and
+                 unparse(n.iter) == coll and isinstance(n.target, ast.Name)]
+        ok_ = bool(loops) and any(
+            unparse(c.func) == loops[0].target.id + '.apply' and not c.args
+            for c in uncond_calls(loops[0].body))
+        if ok_:
+            res.ok(f'{mq}: every entry of {coll} applied on every pass')
+        else:
+            res.fail(ctx.finding('PICKUP', mf, mf.node,
+                                 f'{mq} does not apply every entry of {coll} '
+                                 f'unconditionally',
+                                 construct=mq + ' loop'))
+    for aq, param in (('PickupManager.add', None), ('SolveManager.add', None)):
+        af = P.func(aq)
+        res.saw(af)
+        made = [st.targets[0].id for st in af.node.body
+                if isinstance(st, ast.Assign) and isinstance(
+                    st.targets[0], ast.Name) and isinstance(
+                    st.value, ast.Call)]
+        ok_ = any(isinstance(c.func, ast.Attribute) and c.func.attr == 'apply'
+                  and isinstance(c.func.value, ast.Name) and
+                  c.func.value.id in made for c in uncond_calls(af.node.body))
+        if ok_:
+            res.ok(f'{aq}: the new entry is applied at once')
+        else:
+            res.fail(ctx.finding('PICKUP', af, af.node,
+                                 f'{aq} does not apply the new entry: until '
+                                 f'the next update() the lens does not '
+                                 f'satisfy it', construct=aq + ' applies'))
     u = P.func('Optic.update')
     res.saw(u)
-    calls = [unparse(c.func) for c in ast.walk(u.node)
-             if isinstance(c, ast.Call)]
+    calls = [unparse(c.func) for c in uncond_calls(u.node.body)]
     seq = [c for c in calls if c.endswith('.apply')]
     if seq == ['self.pickups.apply', 'self.solves.apply']:
         res.ok('Optic.update: pickups.apply() then solves.apply()')
@@ -1599,6 +1666,43 @@ def remove_relink(ctx):
             'material_pre, so the traced lens is not the prescription the '
             'tables report (f2 66.73 instead of 81.36; Lagrange invariant '
             'not constant)', construct='successor medium not re-linked'))
+    # a mirror keeps its two sides in one medium, a Fresnel coating is rebuilt
+    # for the new pair of media; the object surface cannot be removed
+    mod = ast.Module(body=after, type_ignores=[])
+    mirror = [n for n in ast.walk(mod) if isinstance(n, ast.If) and
+              unparse(n.test).replace(' ', '') in (
+                  'following.is_reflective',
+                  'self.surfaces[index].is_reflective') and any(
+                  unparse(st).replace(' ', '') in (
+                      'following.material_post=following.material_pre',
+                      'self.surfaces[index].material_post='
+                      'self.surfaces[index].material_pre')
+                  for st in n.body)]
+    coat = [n for n in ast.walk(mod) if isinstance(n, ast.If) and
+            'isinstance(' in unparse(n.test) and
+            'FresnelCoating' in unparse(n.test) and
+            unparse(n.test).replace(' ', '').startswith('isinstance(') and
+            any(isinstance(st, ast.Expr) and 'set_fresnel_coating()' in
+                unparse(st) for st in n.body)]
+    guard0 = [n for n in f.node.body[:dels[0]] if isinstance(n, ast.If) and
+              unparse(n.test).replace(' ', '') in ('index==0', '0==index')
+              and any(isinstance(b, ast.Raise) for b in n.body)]
+    bound = [n for n in f.node.body[dels[0] + 1:] if isinstance(n, ast.If) and
+             unparse(n.test).replace(' ', '') in (
+                 'index<len(self.surfaces)', 'len(self.surfaces)>index')]
+    for name, ok_ in (('a mirror that followed keeps both sides in the new '
+                       'medium', bool(mirror)),
+                      ('a Fresnel coating is rebuilt for the new media',
+                       bool(coat)),
+                      ('the object surface cannot be removed', bool(guard0)),
+                      ('nothing is re-linked when the last surface was '
+                       'removed', bool(bound))):
+        if ok_:
+            res.ok('remove_surface: ' + name)
+        else:
+            res.fail(ctx.finding('REMOVE-RELINK', f, f.node,
+                                 'remove_surface: not the case that ' + name,
+                                 construct='remove_surface: ' + name[:40]))
     return res
 
 
